@@ -24,12 +24,14 @@ const detSeriesPerMst, detTimes = 3, 80
 func mstOfSeries(s int) string { return detMsts[s/detSeriesPerMst] }
 
 type heldView struct {
-	vid      int
-	ms       string
-	asc      bool
-	vw       *engine.VerifView
-	specRows string // what the view must return: the acknowledged rows when it was taken
-	ok       bool
+	vid        int
+	ms         string
+	asc        bool
+	vw         *engine.VerifView
+	specRows   string // what the view must return: the acknowledged rows when it was taken
+	ok         bool
+	line       int // op line of the take
+	unlinkSeen bool
 }
 
 type detRun struct {
@@ -51,6 +53,9 @@ type detRun struct {
 	trace                                                  bool
 	pendingRows                                            map[string]bool
 	mergeGrp                                               map[string][]string
+	// files published by the flush in flight (since the last switch), per measurement
+	flushFiles map[string]map[string]bool
+	sched      []string
 }
 
 func rev(xs []string) []string {
@@ -88,7 +93,82 @@ func nameList(xs []string) string {
 	return strings.Join(xs, ",")
 }
 
+// shortName: 0000000c-0001-00000000.tssp -> c-1
+func shortName(f string) string {
+	base := strings.TrimSuffix(f, ".tssp")
+	parts := strings.Split(base, "-")
+	if len(parts) != 3 {
+		return f
+	}
+	a := strings.TrimLeft(parts[0], "0")
+	b := strings.TrimLeft(parts[1], "0")
+	if a == "" {
+		a = "0"
+	}
+	if b == "" {
+		b = "0"
+	}
+	return a + "-" + b
+}
+
+func shortNames(list string) string {
+	if list == "-" {
+		return "-"
+	}
+	xs := strings.Split(list, ",")
+	for i := range xs {
+		xs[i] = shortName(xs[i])
+	}
+	return strings.Join(xs, ",")
+}
+
+// step appends one item to the compact schedule of the history (what a violation reports).
+func (d *detRun) step(op string) {
+	f := strings.Fields(op)
+	if len(f) == 0 {
+		return
+	}
+	item := ""
+	switch f[0] {
+	case "note", "release", "open":
+		return
+	case "write":
+		item = "w"
+	case "query":
+		item = "q(" + f[2] + ")"
+	case "take":
+		item = "take#" + f[1] + "(" + f[3] + ")"
+	case "read":
+		item = "read#" + f[1]
+	case "publish":
+		item = "publish(" + f[1] + " ord=" + shortNames(f[2]) + " ooo=" + shortNames(f[3]) + ")"
+	case "plan":
+		return
+	case "replace":
+		item = "replace(" + f[1] + " " + f[2] + " " + shortNames(f[3]) + "=>" + shortNames(f[4]) + ")"
+	case "mergereplace":
+		item = "mergereplace(" + f[1] + " ooo=" + shortNames(f[2]) + " " + shortNames(f[3]) + "=>" + shortNames(f[4]) + ")"
+	default:
+		item = strings.Join(f, " ")
+	}
+	d.sched = append(d.sched, item)
+}
+
+// viol reports a violation of the property together with the schedule that led to it.
+func (d *detRun) viol(line int, class, desc string) {
+	from := 0
+	if len(d.sched) > 120 {
+		from = len(d.sched) - 120
+	}
+	pre := ""
+	if from > 0 {
+		pre = fmt.Sprintf("… (%d earlier steps) ", from)
+	}
+	d.c.Violation(line, class, desc+" | schedule of history "+fmt.Sprint(d.idx)+" (@actor#n:op = the actor is stopped before its n-th file-system mutation, * = inside a file-list critical section): "+pre+strings.Join(d.sched[from:], " "))
+}
+
 func (d *detRun) emit(op, ans string) int {
+	d.step(op)
 	if d.trace {
 		fmt.Fprintf(os.Stderr, "   op: %-60s -> %s\n", op, ans)
 	}
@@ -118,6 +198,7 @@ func (d *detRun) observe(actor string, locked map[string]bool) {
 		d.emit("switch", "ok")
 		d.pendingRows = map[string]bool{}
 		prev.Flushed = map[string]bool{}
+		d.flushFiles = map[string]map[string]bool{}
 	}
 	flushGone := prev.HasSnapshot && !st.HasSnapshot
 	for _, ms := range detMsts {
@@ -130,10 +211,17 @@ func (d *detRun) observe(actor string, locked map[string]bool) {
 					// a whole flush went by unobserved
 					d.emit("switch", "ok")
 					d.pendingRows = map[string]bool{}
+					d.flushFiles = map[string]map[string]bool{}
 					prev.HasSnapshot = true
 					flushGone = true
 				}
 				d.emit(fmt.Sprintf("publish %s %s %s", ms, nameList(addedOrd), nameList(addedOoo)), "ok")
+				if d.flushFiles[ms] == nil {
+					d.flushFiles[ms] = map[string]bool{}
+				}
+				for _, f := range append(append([]string{}, addedOrd...), addedOoo...) {
+					d.flushFiles[ms][f] = true
+				}
 			}
 		case actCompact:
 			if len(removedOrd) > 0 || len(addedOrd) > 0 {
@@ -159,6 +247,7 @@ func (d *detRun) observe(actor string, locked map[string]bool) {
 	}
 	if flushGone {
 		d.emit("drop", "ok")
+		d.flushFiles = map[string]map[string]bool{}
 	}
 	d.prev = st
 	// files held by open views must still exist
@@ -166,10 +255,20 @@ func (d *detRun) observe(actor string, locked map[string]bool) {
 		if locked[hv.ms] {
 			continue // a file of that measurement is being renamed under its own lock
 		}
-		for _, p := range hv.vw.Files() {
+		if hv.unlinkSeen {
+			continue
+		}
+		names := append(append([]string{}, hv.vw.Orders...), hv.vw.OutOfOrders...)
+		for i, p := range hv.vw.Files() {
 			if _, err := os.Stat(p); err != nil {
+				name := p
+				if i < len(names) {
+					name = names[i]
+				}
 				line := d.emit("note use-after-unlink check", "ok")
-				d.c.Violation(line, "use_after_unlink", fmt.Sprintf("view %d of %s holds %s, which is gone from the disk (%v)", hv.vid, hv.ms, p, err))
+				d.viol(line, "use_after_unlink", fmt.Sprintf("history %d (%s) after %s: view %d of %s (taken at op line %d) holds %s, which is gone from the disk (%v)", d.idx, d.kinds.String(), actor, hv.vid, hv.ms, hv.line, name, err))
+				hv.unlinkSeen = true
+				break
 			}
 		}
 	}
@@ -187,6 +286,28 @@ func viewText(vw *engine.VerifView) string {
 	sort.Strings(o)
 	sort.Strings(u)
 	return fmt.Sprintf("view act=%s snap=%s ord=%s ooo=%s", b2s(vw.HasActive), b2s(vw.HasSnapshot), strings.Join(o, ","), strings.Join(u, ","))
+}
+
+// checkComposition is the implementation-vs-theorem check of the fifth clause of
+// view_exactly_once: a view never holds the table being flushed together with a file made
+// from it (the rows would be consulted twice), and - from what the last observation of the
+// protocol state says - holds the table being flushed exactly when the measurement has rows
+// in it that are not yet published.
+func (d *detRun) checkComposition(line int, ms string, vw *engine.VerifView, context string) {
+	if vw == nil || vw.Empty {
+		return
+	}
+	if vw.HasSnapshot {
+		for _, f := range append(append([]string{}, vw.Orders...), vw.OutOfOrders...) {
+			if d.flushFiles[ms][f] {
+				d.viol(line, "view_holds_table_and_its_files", fmt.Sprintf("history %d (%s) %s: a view of %s holds the table being flushed and the file %s published from it", d.idx, d.kinds.String(), context, ms, f))
+				return
+			}
+		}
+	}
+	if d.prev.HasSnapshot && d.prev.InSnapshot[ms] && !d.prev.Flushed[ms] && !vw.HasSnapshot && !d.closed {
+		d.viol(line, "view_misses_table_being_flushed", fmt.Sprintf("history %d (%s) %s: a view of %s does not hold the table being flushed although the measurement's rows in it are not published yet", d.idx, d.kinds.String(), context, ms))
+	}
 }
 
 func dirName(asc bool) string {
@@ -227,6 +348,9 @@ func (d *detRun) query(ms string, asc bool, context string) {
 	}
 	line := d.emit(fmt.Sprintf("query %d %s %s", client, ms, dirName(asc)), ans)
 	d.c.Count("probe:query@" + context)
+	if perr == "" && err == nil {
+		d.checkComposition(line, ms, vw, context)
+	}
 	if d.closed {
 		d.c.Count("probe:query-after-close-begun")
 		return
@@ -236,7 +360,7 @@ func (d *detRun) query(ms string, asc bool, context string) {
 		if strings.HasPrefix(ans, "err ") {
 			class = "read_error"
 		}
-		d.c.Violation(line, class, fmt.Sprintf("history %d (%s) %s: read of %s answered %q, acknowledged writes give %q", d.idx, d.kinds.String(), context, ms, ans, want))
+		d.viol(line, class, fmt.Sprintf("history %d (%s) %s: read of %s answered %q, acknowledged writes give %q", d.idx, d.kinds.String(), context, ms, ans, want))
 	}
 }
 
@@ -249,7 +373,7 @@ func (d *detRun) take(ms string, asc bool, context string) {
 	op := fmt.Sprintf("take %d %d %s %s", d.nvid, client, ms, dirName(asc))
 	if perr != "" || err != nil {
 		line := d.emit(op, "err "+perr+fmt.Sprint(err))
-		d.c.Violation(line, "read_error", "opening a query failed: "+perr+fmt.Sprint(err))
+		d.viol(line, "read_error", "opening a query failed: "+perr+fmt.Sprint(err))
 		return
 	}
 	if vw.Empty {
@@ -258,8 +382,9 @@ func (d *detRun) take(ms string, asc bool, context string) {
 		d.nvid--
 		return
 	}
-	d.emit(op, viewText(vw))
-	d.views = append(d.views, &heldView{vid: d.nvid, ms: ms, asc: asc, vw: vw, specRows: d.spec.read(ms, asc), ok: !d.closed})
+	line := d.emit(op, viewText(vw))
+	d.checkComposition(line, ms, vw, context)
+	d.views = append(d.views, &heldView{vid: d.nvid, ms: ms, asc: asc, vw: vw, specRows: d.spec.read(ms, asc), ok: !d.closed, line: line})
 	d.longViews++
 	d.c.Count("probe:take@" + context)
 }
@@ -287,10 +412,10 @@ func (d *detRun) readHeld(i int, context string) {
 		line := d.emit("note read after the files were closed", "ok")
 		d.c.Count("read-after-files-closed:" + strings.Fields(ans)[0])
 		if !strings.HasPrefix(ans, "err ") && hv.ok && ans != hv.specRows {
-			d.c.Violation(line, "torn_read", fmt.Sprintf("history %d: view %d read after Close answered %q, rows acknowledged when it was taken: %q", d.idx, hv.vid, ans, hv.specRows))
+			d.viol(line, "torn_read", fmt.Sprintf("history %d: view %d read after Close answered %q, rows acknowledged when it was taken: %q", d.idx, hv.vid, ans, hv.specRows))
 		}
 		if perr := hx.Safe(func() { hv.vw.Release() }); perr != "" {
-			d.c.Violation(line, "panic", "release: "+perr)
+			d.viol(line, "panic", "release: "+perr)
 		}
 		d.emit(fmt.Sprintf("release %d", hv.vid), "ok")
 		d.views = append(d.views[:i], d.views[i+1:]...)
@@ -303,10 +428,10 @@ func (d *detRun) readHeld(i int, context string) {
 		if strings.HasPrefix(ans, "err ") {
 			class = "read_error"
 		}
-		d.c.Violation(line, class, fmt.Sprintf("history %d (%s) %s: view %d of %s taken earlier answered %q, rows acknowledged when it was taken: %q", d.idx, d.kinds.String(), context, hv.vid, hv.ms, ans, hv.specRows))
+		d.viol(line, class, fmt.Sprintf("history %d (%s) %s: view %d of %s taken earlier answered %q, rows acknowledged when it was taken: %q", d.idx, d.kinds.String(), context, hv.vid, hv.ms, ans, hv.specRows))
 	}
 	if perr := hx.Safe(func() { hv.vw.Release() }); perr != "" {
-		d.c.Violation(line, "panic", "release: "+perr)
+		d.viol(line, "panic", "release: "+perr)
 	}
 	d.emit(fmt.Sprintf("release %d", hv.vid), "ok")
 	d.views = append(d.views[:i], d.views[i+1:]...)
@@ -378,7 +503,7 @@ func (d *detRun) write(rows []engx.Row, context string) error {
 			d.pendingRows[x.Mst] = true
 		}
 	} else if !d.closed {
-		d.c.Violation(line, "write_rejected", "a valid write batch was rejected: "+ans)
+		d.viol(line, "write_rejected", "a valid write batch was rejected: "+ans)
 		return fmt.Errorf("write failed: %s", ans)
 	}
 	return nil
@@ -469,7 +594,7 @@ func (d *detRun) runActor(actor, opName string, f func() error, hiWater *int) er
 		ev, others, finished, perr, timedOut := waitEvent(d.p, done, 60*time.Second, cur)
 		if timedOut {
 			line := d.emit("note actor "+opName, "ok")
-			d.c.Violation(line, "deadlock", fmt.Sprintf("history %d: %s neither reached a pause point nor finished within 60 s", d.idx, opName))
+			d.viol(line, "deadlock", fmt.Sprintf("history %d: %s neither reached a pause point nor finished within 60 s", d.idx, opName))
 			return fmt.Errorf("actor %s stuck", opName)
 		}
 		if finished {
@@ -477,12 +602,19 @@ func (d *detRun) runActor(actor, opName string, f func() error, hiWater *int) er
 			d.observe(actor, nil)
 			if perr != "" && !strings.HasPrefix(perr, "error: ") {
 				line := d.emit("note actor "+opName, "ok")
-				d.c.Violation(line, "panic", fmt.Sprintf("history %d: %s: %s", d.idx, opName, perr))
+				d.viol(line, "panic", fmt.Sprintf("history %d: %s: %s", d.idx, opName, perr))
 			}
 			return nil
 		}
 		d.pausePoints++
 		d.c.Count("pause:" + ev.actor + ":" + ev.op)
+		{
+			mark := ""
+			if ev.inLock {
+				mark = "*"
+			}
+			d.sched = append(d.sched, fmt.Sprintf("@%s#%d:%s%s", ev.actor, ev.n, ev.op, mark))
+		}
 		// measurements whose file list some goroutine standing at a gate holds exclusively
 		locked := map[string]bool{}
 		unknownLock := false
@@ -547,7 +679,7 @@ func (d *detRun) exclusionProbe(ev *event, actor string, done chan string) {
 		if r.perr == "" && r.err == nil {
 			got = engx.DumpText(r.rows)
 		}
-		d.c.Violation(line, "read_not_excluded_during_replace", fmt.Sprintf("history %d: a query of %s completed (%q) while %s was stopped inside the critical section that swaps the measurement's file list entries (%s %s)", d.idx, ms, got, actor, ev.op, ev.rel))
+		d.viol(line, "read_not_excluded_during_replace", fmt.Sprintf("history %d: a query of %s completed (%q) while %s was stopped inside the critical section that swaps the measurement's file list entries (%s %s)", d.idx, ms, got, actor, ev.op, ev.rel))
 		close(ev.resume)
 		return
 	case <-time.After(150 * time.Millisecond):
@@ -561,17 +693,17 @@ func (d *detRun) exclusionProbe(ev *event, actor string, done chan string) {
 		line := d.emit("note exclusion probe", "ok")
 		switch {
 		case r.perr != "":
-			d.c.Violation(line, "panic", "query during replace: "+r.perr)
+			d.viol(line, "panic", "query during replace: "+r.perr)
 		case r.err != nil:
-			d.c.Violation(line, "read_error", "query during replace: "+r.err.Error())
+			d.viol(line, "read_error", "query during replace: "+r.err.Error())
 		default:
 			if got, want := engx.DumpText(r.rows), d.spec.read(ms, asc); got != want {
-				d.c.Violation(line, "torn_read", fmt.Sprintf("history %d: a query of %s that waited for the file-list swap answered %q, acknowledged writes give %q", d.idx, ms, got, want))
+				d.viol(line, "torn_read", fmt.Sprintf("history %d: a query of %s that waited for the file-list swap answered %q, acknowledged writes give %q", d.idx, ms, got, want))
 			}
 		}
 	case <-time.After(60 * time.Second):
 		line := d.emit("note exclusion probe", "ok")
-		d.c.Violation(line, "deadlock", "a query that waited for a file-list swap did not return within 60 s")
+		d.viol(line, "deadlock", "a query that waited for a file-list swap did not return within 60 s")
 	}
 	d.p.setGate(actor, true) // keeps the loop's bookkeeping symmetric; the actor is past its pause points or done
 }
@@ -590,7 +722,7 @@ func runDetHistory(c *hx.Ctx, r *hx.Rng, idx int) error {
 	// (not DisableBackground: DisableCompAndMerge closes the table store's task scheduler for
 	// good, after which level and full compaction silently do nothing)
 	sh.DetachFromCompactor()
-	d := &detRun{c: c, r: r, idx: idx, sh: sh, p: p, root: root, spec: lww{}, pendingRows: map[string]bool{}, trace: c.Arg("trace", "") != ""}
+	d := &detRun{c: c, r: r, idx: idx, sh: sh, p: p, root: root, spec: lww{}, pendingRows: map[string]bool{}, flushFiles: map[string]map[string]bool{}, trace: c.Arg("trace", "") != ""}
 	d.prev = engine.VerifProtocolState{Flushed: map[string]bool{}, Orders: map[string][]string{}, OutOfOrders: map[string][]string{}}
 	d.emit(fmt.Sprintf("open %d %s", idx, strings.Join(detMsts, ",")), "ok")
 	hiWater := 2
@@ -721,11 +853,11 @@ func (d *detRun) closeShard(mode, keep int, hiWater *int) error {
 		case perr := <-closeDone:
 			if perr != "" && !strings.HasPrefix(perr, "error: ") {
 				line := d.emit("note close", "ok")
-				d.c.Violation(line, "panic", "Close: "+perr)
+				d.viol(line, "panic", "Close: "+perr)
 			}
 		case <-time.After(60 * time.Second):
 			line := d.emit("note close", "ok")
-			d.c.Violation(line, "deadlock", fmt.Sprintf("history %d: Close (%s) did not return within 60 s", d.idx, what))
+			d.viol(line, "deadlock", fmt.Sprintf("history %d: Close (%s) did not return within 60 s", d.idx, what))
 			return fmt.Errorf("close stuck")
 		}
 		d.emit("closefiles", "ok")
@@ -763,7 +895,7 @@ func (d *detRun) closeShard(mode, keep int, hiWater *int) error {
 		select {
 		case perr := <-closeDone:
 			line := d.emit("note close returned while a flush was in flight", "ok")
-			d.c.Violation(line, "close_did_not_wait_for_flush", fmt.Sprintf("history %d: Close returned (%q) while a flush was stopped before %s %s", d.idx, perr, ev.op, ev.rel))
+			d.viol(line, "close_did_not_wait_for_flush", fmt.Sprintf("history %d: Close returned (%q) while a flush was stopped before %s %s", d.idx, perr, ev.op, ev.rel))
 			closeDone <- perr
 		case <-time.After(200 * time.Millisecond):
 		}
@@ -774,7 +906,7 @@ func (d *detRun) closeShard(mode, keep int, hiWater *int) error {
 		close(ev.resume)
 		if perr := <-flushDone; perr != "" {
 			line := d.emit("note flush during close", "ok")
-			d.c.Violation(line, "panic", "flush overlapping Close: "+perr)
+			d.viol(line, "panic", "flush overlapping Close: "+perr)
 		}
 		// Close goes on as soon as the flush has dropped its table and closes the files, so the
 		// lists cannot be observed any more: the publications are read off the renames the flush
@@ -863,7 +995,7 @@ func (d *detRun) closeShard(mode, keep int, hiWater *int) error {
 	d.p.on = false
 	if len(late) > 0 {
 		line := d.emit("note work after close", "ok")
-		d.c.Violation(line, "work_after_close", fmt.Sprintf("history %d: %d file-system mutations after Close returned, first: %s", d.idx, len(late), late[0]))
+		d.viol(line, "work_after_close", fmt.Sprintf("history %d: %d file-system mutations after Close returned, first: %s", d.idx, len(late), late[0]))
 	}
 	return nil
 }
